@@ -118,6 +118,28 @@ def gen_schema(rng, big=0, fmt=None):
     return dict(fmt=fmt, numrecs=numrecs, dims=dims, gatts=gatts, vars=vs, unlim=unlim, has_rec=has_rec)
 
 
+def gen_ends_at_header(rng, fmt, variant, k):
+    """spec-valid file with NOTHING after the header: only record variables and numrecs = 0 (the
+    state right after enddef), or no variable at all.  `k` sweeps the header length in steps of 4 so
+    that, with every small chunk size, the last 4- and 8-byte fields of the header take every
+    position relative to the last read chunk (straddling it included)."""
+    dn, an, vn = set(), set(), set()
+    dims = [dict(name=gen_name(rng, dn, long_ok=False), size=0), dict(name=gen_name(rng, dn, long_ok=False), size=rng.range(1, 4))]
+    gatts = [gen_att(rng, fmt, an) for _ in range(rng.choice([0, 1, 2]))]
+    pad = bytes(97 + rng.below(26) for _ in range(4 * k + 1))        # a name of 4k+1 bytes: header grows by 4 per step
+    vs = []
+    if variant == 'rec-only':
+        for j in range(rng.choice([1, 2, 3])):
+            t = rng.range(1, 6) if fmt < 5 else rng.range(1, 11)
+            vs.append(dict(name=gen_name(rng, vn, long_ok=False), dimids=[0] + ([1] if rng.chance(1, 2) else []),
+                           atts=[gen_att(rng, fmt, set()) for _ in range(rng.choice([0, 0, 1]))], type=t, vsize=0, begin=0))
+        vs[-1]['name'] = pad
+    else:
+        gatts.append(dict(name=pad, type=2, nelems=rng.range(1, 7), value=b''))
+        gatts[-1]['value'] = bytes(65 + rng.below(26) for _ in range(gatts[-1]['nelems']))
+    return dict(fmt=fmt, numrecs=0, dims=dims, gatts=gatts, vars=vs, unlim=0, has_rec=bool(vs), family='ends-at-header')
+
+
 def is_rec(s, v):
     return bool(v['dimids']) and v['dimids'][0] < len(s['dims']) and s['dims'][v['dimids'][0]]['size'] == 0
 
@@ -375,6 +397,12 @@ def run_check(tier, seed):
             elif i < 4:
                 big = rng.range(600, 3000)
             schemas.append(gen_schema(rng, big=big))
+        # files that end exactly where the header ends, header length swept in steps of 4
+        nsweep = 27 if tier == 'quick' else 54
+        for fmt in (1, 2, 5):
+            for variant in ('rec-only', 'no-vars'):
+                for k in range(nsweep):
+                    schemas.append(gen_ends_at_header(rng, fmt, variant, k % 27))
         # corpus of past failing schemas (token lines) runs first
         corpus = os.path.join(VERIF, 'corpus', 'C04', 'schemas.txt')
         ncorpus = 0
@@ -408,7 +436,9 @@ def run_check(tier, seed):
                 s['file_end'] = max(ef, s['begin_rec'] + s['numrecs'] * s['recsize'] if recs else ef)
                 s['has_rec'] = bool(recs)
             else:
-                s['tags'] = layout(rng, s, s['xsz'], exotic=(rng.below(6) != 0))
+                s['tags'] = layout(rng, s, s['xsz'], exotic=(rng.below(6) != 0 and not s.get('family')))
+                if s.get('family'):
+                    s['tags'].add(s['family'])
         r2 = lean_batch(drv, ['ENC ' + ' '.join(schema_tokens(s)) for s in schemas])
         dist = {}
         for k, (s, l) in enumerate(zip(schemas, r2)):
@@ -420,12 +450,14 @@ def run_check(tier, seed):
                 return V.finish()
             body = bytearray(rng.below(256) for _ in range(max(0, s['file_end'] - s['xsz'])))
             data = bytes(hdr) + bytes(body)
-            if rng.chance(1, 4) and not s['has_rec']:
+            if rng.chance(1, 4) and not s['has_rec'] and not s.get('family'):
                 data += bytes(rng.below(256) for _ in range(rng.range(1, 40)))     # trailing bytes after the data
                 s['tags'].add('trailing-bytes')
             path = os.path.join(wd, 'v%d.nc' % k)
             open(path, 'wb').write(data)
             chunks = CHUNKS if (tier == 'thorough' or k < 12) else [36, rng.choice([40, 52, 64, 100]), rng.choice([4096, 262144])]
+            if s.get('family'):
+                chunks = list(range(36, 101, 4)) + [4096]        # every small chunk size
             if s['xsz'] > 100000:
                 chunks = [4096, 262144]       # (the model's copy loop appends per refill: keep the big case to large chunks)
                 s['tags'].add('header>2-default-chunks')
